@@ -41,7 +41,10 @@ CHECKS = {
         "needs_bins": ["mrp", "mrjob", "stagebin"],
         "technique": "property-based testing (rapid): generated programs x generated completion schedules on the real Pipestance with a hooked job manager, compared against an independent reference evaluator",
         "level_text": ("Every job's _args (and a join's _chunk_defs / _chunk_outs, in order) as found on disk when the job is handed to the job manager, and the top-level "
-                       "_outs at completion, are compared with an independent reference evaluation of the generator's IR; ~2-3k pipestances per quick run. Exploration."),
+                       "_outs at completion, are compared with an independent reference evaluation of the generator's IR; ~2-3k pipestances per quick run. Map calls inside map-called pipelines "
+                       "(TestNestedMapsJobs: arrays of arrays with ragged and empty inner sizes, the inner collection passed in or produced inside the mapped pipeline, a leaf that may split or "
+                       "also take the whole inner collection): every job's arguments, start order and multiplicity are judged; the merged values such programs hand on are not (known finding "
+                       "C01/nested-map-merge-repeats-forks). Exploration."),
         "level_note": "E1: jobs are completed in-process by the harness instead of running mrjob/stage processes; the schedule is owned by rapid.",
         "rule": _SEM_RULE + "Non-trivial (C01): >= 2 stage jobs and at least one of map call / disabled modifier / projection / sub-pipeline; distinct by hash(program, schedule).",
         "assumptions": _SEM_ASSUME,
